@@ -129,6 +129,43 @@ def setChildren_lists_exactly_the_new_items(k: int, m: int, s0: int, s1: int, s2
             assert f.parent is None, "frame"
 
 
+@lemma(gen={"k": (0, 2), "m": (2, 3), "s0": (0, 3), "s1": (0, 3), "s2": (0, 3)})
+def setChildren_with_a_repeated_item_is_refused_and_leaves_a_well_formed_tree(k: int, m: int, s0: int, s1: int, s2: int):
+    """the complement of the lemma above: the new item list NAMES AN ITEM TWICE (every selection with a repetition, m = 2..3
+    entries from the old children and two fresh objects).  It cannot be honoured (a parent lists a child once): refused
+    loudly (RuntimeError), and what is left is still a well-formed tree - each object listed at most once, the object
+    the parent of exactly what it lists, everything else parentless with a detached location."""
+    k = choose(k, 0, 2)
+    m = choose(m, 2, 3)
+    root, grid, cs = mk_root(k, [0, 1], 0, 0)
+    fresh = []
+    for f in range(2):
+        o = new(Composite, name="f%d" % f, parent=None, _children=[], spatialGrid=None, p=new(PStub))
+        o.spatialLocator = IndexLocation(f, 7, 7, None)
+        fresh.append(o)
+    pool = cs + fresh
+    raw = [s0, s1, s2]
+    sel = [choose(raw[a], 0, len(pool) - 1) for a in range(m)]
+    assume(len(set(sel)) < m)
+    items = [pool[s] for s in sel]
+    try:
+        root.setChildren(items)
+        refused = False
+    except RuntimeError:
+        refused = True
+    assert refused, "a list that names an item twice is refused"
+    now = list(root)
+    for x in pool:
+        assert count_in(now, x) <= 1, "each child listed once"
+        if count_in(now, x) == 1:
+            assert same(x.parent, root) and count_in(items, x) >= 1, "listed: its parent is this object, and it was asked for"
+        else:
+            assert x.parent is None, "not listed: no parent"
+    for c in cs:
+        if count_in(now, c) == 0:
+            assert c.spatialLocator.grid is None, "a former child that is out: detached location"
+
+
 def key_of(loc):
     return (loc.k, loc.j, loc.i)
 
@@ -221,14 +258,13 @@ def well_located(a, blocks):
     return ok
 
 
-@lemma(gen={"k": (0, 2), "h0": (0.5, 30.0), "h1": (0.5, 30.0), "h2": (0.5, 30.0)})
+@lemma(gen={"k": (0, 2), "h0": [0.0, 0.5, 3.0, 30.0, -1.0], "h1": [0.0, 0.5, 3.0, 30.0, -1.0], "h2": [0.0, 0.5, 3.0, 30.0]})
 def assembly_add_appends_and_relocates_every_block(k: int, h0: float, h1: float, h2: float):
     """Assembly.add on an assembly with k <= 2 blocks of symbolic heights: the block is appended, the assembly is its
     parent, and EVERY block sits at (0, 0, position) of the (re-made) axial grid that belongs to the assembly;
     the axial mesh is the running sum of the block heights"""
     k = choose(k, 0, 2)
-    assume(h0 > 0 and h1 > 0 and h2 > 0)
-    hs = [h0, h1, h2]
+    hs = [h0, h1, h2]  # no hypothesis on the heights (zero, negative: the tree clauses do not depend on them)
     a, bs = mk_assembly(k, hs)
     assert well_located(a, bs)
     nb = mk_block("new", hs[k])
